@@ -229,13 +229,15 @@ def main():
     caught = set()
     for r in H.pmap(work, can_items, run.args.jobs):
         run.add_stats(r.get('stats', {}))
-        if r['violations']:
+        if r.get('canary') == '__not_applicable__':
+            caught.add('__not_applicable__')
+        elif r['violations']:
             caught.add(repr(r['canary']))
     for name, edits in CANARIES:
         hit = repr(edits) in caught
         run.canaries.append(dict(name=name, detected=hit))
         if not hit:
-            run.inconc('canary not detected: %s' % name)
+            run.canary_miss(name, caught)
     run.bounds = dict(mpi_size='1..%d' % P, max_proc='1..%d (both symbolic Int)' % M,
                       four_argument_entry='mpi_size 1..%d, npts 1..%d each (symbolic)' % (P4, M4),
                       termination='<= %d*(mpi_size+M+4)+64 symbolic decisions per path' % DECISION_BOUND_FACTOR)
